@@ -794,7 +794,7 @@ class Join(Sharded):
     DELIMS = ('', ',', ', ')
 
     def all_cases(self, tier):
-        pool = ['a', 'b c', None, ',', 7]      # 7: an item that is a whole number joins as its digits (as under &)
+        pool = ['a', 'b c', None, ',', 7, 0]      # 7: an item that is a whole number joins as its digits (as under &); 0: an item, no blank
         top = 3 if tier == 'quick' else 5
         for n in range(1, top + 1):
             for items in itertools.product(pool, repeat=n):
@@ -810,7 +810,7 @@ class Join(Sharded):
         coll = Coll()
         blank = any(x is None for x in items)
         for args in renderings(items):
-            comma = ',' in items or 7 in items
+            comma = ',' in items or 7 in items or 0 in items
             coll.add(('C', blank, comma), self.one(env, ['one', 'CONCATENATE', args, None, None, 'l']))
             for d in self.DELIMS:
                 for ig in (True, False):
